@@ -62,6 +62,7 @@ func runC14(c *vf.Case) {
 		}
 	}
 	var srcs []*c14Src
+	mcPorts := map[int]bool{}
 	var closers []func()
 	defer func() {
 		for _, f := range closers {
@@ -165,10 +166,17 @@ func runC14(c *vf.Case) {
 			}
 		case "mcast-read", "mcast-write":
 			p, err := multicast.NewUDPPeer(w.IOC, "udp", "127.0.0.1:0")
+			for try := 0; err == nil && mcPorts[p.LocalAddr().Port] && try < 8; try++ {
+				// peers set SO_REUSEPORT: the kernel's automatic choice may hand out a port another peer of this case holds,
+				// and datagrams for that port would then go to either socket
+				_ = p.Close()
+				p, err = multicast.NewUDPPeer(w.IOC, "udp", "127.0.0.1:0")
+			}
 			if err != nil {
 				c.Failf("harness-setup", "NewUDPPeer: %v", err)
 				return
 			}
+			mcPorts[p.LocalAddr().Port] = true
 			closers = append(closers, func() { _ = p.Close() })
 			peer, port, err := rawpeer.UDP4([4]byte{127, 0, 0, 1})
 			if err != nil {
